@@ -63,7 +63,8 @@ func (r *vFaultReader) Read(p []byte) (int, error) {
 	return n, nil
 }
 
-var c10Errors = []error{io.ErrUnexpectedEOF, errors.New("verif: injected read error"), syscall.EISDIR, syscall.EIO}
+var c10Errors = []error{io.ErrUnexpectedEOF, errors.New("verif: injected read error"), syscall.EISDIR, syscall.EIO,
+	&os.PathError{Op: "read", Path: "log.yaml", Err: os.ErrClosed}, io.ErrClosedPipe, fmt.Errorf("wrapped: %w", io.EOF), os.ErrDeadlineExceeded, syscall.EINTR}
 
 type c10ParserCase struct {
 	Doc    vDoc  `json:"doc"`
@@ -610,7 +611,7 @@ func init() {
 
 func TestVerifC10Parser(t *testing.T) {
 	vRapid(t, "C10", "c10.parser",
-		"generated well-formed files (1-5 records quick / 1-12 thorough, wild names, every layout, comments, notes); for EVERY byte offset k in [0,len] the reader starts failing at k (error alone, or together with the last chunk; scanner-sized, one-byte or drawn chunking; 4 error values): ParseStreamCallback must return an error; control with a healthy reader of the same chunking must deliver exactly the AST; non-trivial = file with >=2 records (a plausible shortened result exists); evaluations count files, program_runs count (file, offset, mode) parses",
+		"generated well-formed files (1-5 records quick / 1-12 thorough, wild names, every layout, comments, notes); for EVERY byte offset k in [0,len] the reader starts failing at k (error alone, or together with the last chunk; scanner-sized, one-byte or drawn chunking; 9 error values incl. wrapped os.ErrClosed and wrapped io.EOF): ParseStreamCallback must return an error; control with a healthy reader of the same chunking must deliver exactly the AST; non-trivial = file with >=2 records (a plausible shortened result exists); evaluations count files, program_runs count (file, offset, mode) parses",
 		vBudget(2400, 24000), genC10Parser, checkC10Parser)
 }
 
